@@ -57,18 +57,24 @@ try:
         missing = [t for t in base['stable_pass'] if t not in passed]
         result['suite'] = {'stable_pass': len(base['stable_pass']), 'missing': missing[:10], 'ok': not missing,
                            'tail': out.strip().split('\n')[-1]}
+    # detection by the registered check: on /repo itself (patch applied, undone straight afterwards) with --on-repo,
+    # otherwise on the scratch worktree through VERIF_REPO (same check, lets several evaluations run while /repo is in use)
+    if '--on-repo' in sys.argv:
+        st = sh('git -C /repo status --porcelain')[1].strip()
+        assert st == '', 'repo not clean: ' + st
+        rc, out = sh('git -C /repo apply %s' % os.path.abspath(os.path.join(src, 'patch.diff')))
+        try:
+            rc, out = sh('./check %s --tier quick' % prop, cwd='/verif')
+        finally:
+            sh('git -C /repo checkout -- .')
+        result['check_target'] = '/repo with the patch applied'
+    else:
+        e = dict(os.environ); e['VERIF_REPO'] = wt
+        rc, out = sh('./check %s --tier quick' % prop, cwd='/verif', env=e)
+        result['check_target'] = 'scratch worktree with the patch applied (VERIF_REPO)'
 finally:
     sh('git -C /repo worktree remove --force %s' % wt)
     shutil.rmtree(home, ignore_errors=True)
-
-# detection by the registered check, on /repo itself, undone straight afterwards
-st = sh('git -C /repo status --porcelain')[1].strip()
-assert st == '', 'repo not clean: ' + st
-rc, out = sh('git -C /repo apply %s' % os.path.abspath(os.path.join(src, 'patch.diff')))
-try:
-    rc, out = sh('./check %s --tier quick' % prop, cwd='/verif')
-finally:
-    sh('git -C /repo checkout -- .')
 viol = [l for l in out.split('\n') if l.startswith('VIOLATION')]
 result['check'] = {'cmd': './check %s --tier quick' % prop, 'exit': rc, 'violation_lines': len(viol),
                    'first': viol[:2], 'with_failing_input': any('no-failing-input-found' not in v for v in viol)}
